@@ -1101,7 +1101,15 @@ lydxml_subtree_r(struct lyd_xml_ctx *lydctx, struct lyd_node *parent, struct lyd
         assert(snode->nodetype & LYD_NODE_ANY);
         r = lydxml_subtree_any(lydctx, snode, ext, &node);
     }
-    LY_DPARSER_ERR_GOTO(r, rc = r, lydctx, cleanup);
+    if (r) {
+        rc = r;
+        if ((r != LY_EVALID) || !(lydctx->val_opts & LYD_VALIDATE_MULTI_ERROR) ||
+                (ly_err_last(ctx)->vecode == LYVE_SYNTAX)) {
+            /* fatal error, the node kept for the multi-error validation is not going to be inserted */
+            lyd_free_tree(node);
+            goto cleanup;
+        }
+    }
 
 node_parsed:
     if (node && snode) {
